@@ -691,6 +691,43 @@ pub fn record(args: &Args) {
 			}
 			lines.push(typed_event("Skips", &gen_skips(&mut rng, 2)));
 		}
+		if want("typed") && i == 2 {
+			// SYSTEMATIC, not drawn: integer keys and values of every digit count (1..20), both signs, at 10^k - 1, 10^k and
+			// 10^k + 1, and the bounds of every width - whatever buffer formats them has its boundary in here
+			let mut m = Maps { s: BTreeMap::new(), i: BTreeMap::new(), u: BTreeMap::new(), i8s: BTreeMap::new(), c: BTreeMap::new(), k: BTreeMap::new(), n: BTreeMap::new() };
+			let mut p: u64 = 1;
+			for k in 0..20u32 {
+				for d in [p.wrapping_sub(1), p, p.wrapping_add(1), p.saturating_mul(9), p.saturating_mul(5) + 7] {
+					m.u.insert(d, (k % 256) as u8);
+					if d <= i64::MAX as u64 {
+						m.i.insert(d as i64, k % 2 == 0);
+						m.i.insert(-(d as i64), k % 2 == 1);
+					}
+					if d <= u32::MAX as u64 {
+						m.n.insert(NewKey(d as u32), vec![k as u8]);
+					}
+					if d <= i8::MAX as u64 {
+						m.i8s.insert(d as i8, ());
+						m.i8s.insert(-(d as i8), ());
+					}
+				}
+				p = p.saturating_mul(10);
+			}
+			for b in [i64::MIN, i64::MAX, i32::MIN as i64, i32::MAX as i64, i16::MIN as i64, u32::MAX as i64, -(u32::MAX as i64)] {
+				m.i.insert(b, true);
+				m.i.insert(b.saturating_add(1), false);
+				m.i.insert(b.saturating_sub(1), false);
+			}
+			for b in [u64::MAX, u64::MAX - 1, 1 << 63, (1 << 63) - 1, (1 << 63) + 1, u32::MAX as u64 + 1] {
+				m.u.insert(b, 1);
+			}
+			m.i8s.insert(i8::MIN, ());
+			lines.push(typed_event("Maps", &m));
+			let ints: Vec<i64> = m.i.keys().cloned().collect();
+			lines.push(typed_event("Vec<i64>", &ints));
+			let uints: Vec<u64> = m.u.keys().cloned().collect();
+			lines.push(typed_event("Vec<u64>", &uints));
+		}
 		if want("typed") && i == 1 {
 			let big = Big {
 				v: (0..300).map(|j| (j * 219 % 65536) as u16).collect(),
@@ -731,6 +768,14 @@ pub fn record(args: &Args) {
 			let v = if i == 0 {
 				// fixed witness of the known finding K2 (more than 19 significant digits)
 				Value::Array(vec![num("0.1258935271334213390012329105723384856175"), num("-6.94457046877395123285481304264976643025875091552734375e-1")])
+			} else if i == 1 {
+				// SYSTEMATIC, not drawn: integers around the bounds of the integer types the visitors are called with
+				// (visit_i64 / visit_u64), incl. unsigned ones above i64::MAX that are not exactly doubles
+				Value::Array(["9223372036854775807", "9223372036854775808", "9223372036854775809", "18446744073709551615", "18446744073709551614", "-9223372036854775808",
+					"-9223372036854775807", "4294967295", "4294967296", "-2147483649", "9007199254740993", "-9007199254740993", "1000000000000000", "-1000000000000000",
+					"9999999999999999", "-9999999999999999", "0", "-1"].iter().map(|s| num(s)).collect())
+			} else if i == 2 {
+				Value::Object(["18446744073709551615", "9223372036854775809", "-9223372036854775808"].iter().enumerate().map(|(j, s)| Entry::new(format!("k{j}").as_str().into(), num(s))).collect())
 			} else {
 				gen_value(&mut rng, 1 + i % 3, i % 4 == 1, numclass)
 			};
